@@ -8,7 +8,7 @@ CHECKS['C16'] = dict(
 )
 CHECKS['C02'] = dict(
     level='exploration',
-    technique='runtime monitoring: real filterstorage.Default + hashprefix filters fed by a local HTTP fixture, verdicts and written messages (full dnssvc stack) compared with a precedence evaluator written from the statement; winner x loser matrix gated',
+    technique='runtime monitoring: real filterstorage.Default + hashprefix filters fed by a local HTTP fixture, verdicts and written messages (full dnssvc stack) compared with a precedence evaluator written from the statement; winner x loser matrix gated; the real binary with permuted rule_lists.ids of a filtering group over two conflicting rewrite lists (order as written in the file)',
     text='Seeded worlds of rule lists (grammar with known meaning), custom rules, blocked services, safe-search and hash-prefix lists are loaded into the real filter storage; for every configuration x probe the verdict at ForConfig(...).FilterRequest/FilterResponse and the message actually written behind the real middleware stack (per-profile blocking mode and TTL, upstream marker records) are compared with a ~60-line evaluator of the documented precedence. Holds for the configurations and probes generated (pairs of overlapping sources are counted and gated). Extended: TTL 0/1 profiles, qtype-alias cache histories with a cache-off twin, custom rules as delivered by the real backendpb/profiledb (full vs incremental sync), $client modifiers with named devices in both orders, four-label listed hosts.',
     note="Trusted: urlfilter's semantics inside the generated grammar; hash-prefix result caches are cleared per probe (their cross-requester leak is C12's subject). Exploration of a seeded sample, not all inputs.",
     ref='2/C02',
